@@ -1,1 +1,1 @@
-import CnlModel.Basic
+import CnlModel.Static
